@@ -11,6 +11,7 @@ import (
 	"runtime"
 	"strings"
 	"sync"
+	"syscall"
 
 	"github.com/kevin-hanselman/dud/src/checksum"
 )
@@ -307,7 +308,7 @@ func runC14(o *opts) {
 			}
 			cmd := exec.Command(o.dud)
 			var stdinFile *os.File
-			switch r.intn(4) {
+			switch r.intn(5) {
 			case 0:
 				kind = strings.Replace(kind, "file", "stdin", 1)
 				cmd.Stdin = bytes.NewReader(data)
@@ -326,6 +327,18 @@ func runC14(o *opts) {
 				stdinFile = f
 				cmd.Stdin = f
 				data = data[off:]
+			case 2:
+				// a path whose size says nothing about the stream: a named pipe fed by a writer
+				kind = strings.Replace(kind, "file", "fifo", 1)
+				fifo := p + ".fifo"
+				must(syscall.Mkfifo(fifo, 0o644))
+				go func(b []byte) {
+					if w, err := os.OpenFile(fifo, os.O_WRONLY, 0); err == nil {
+						w.Write(b)
+						w.Close()
+					}
+				}(data)
+				args = append(args, fifo)
 			default:
 				args = append(args, p)
 			}
